@@ -9,7 +9,7 @@ extern TLweSample *g_cur, *g_temp;
 extern int32_t g_wa_val; /* ghost: the rounding of the watched mask coefficient x->a[g_i] */
 
 /* blind rotation ping-pong loop: temp2/temp3 are always {temp, accum}; temp3 holds the current accumulator;
- * index g_i is rotated exactly once iff bara[g_i] != 0, in increasing index order */
+ * index g_i is rotated exactly once when bara[g_i] != 0 and at most once (by X^0 = 1) when it is 0, in increasing index order */
 #define BLIND_LOOP(i) \
     __CPROVER_assigns(i, temp2, temp3, g_bad, g_last_i, g_calls_watched, g_cur) \
     __CPROVER_loop_invariant(0 <= i && i <= n && g_bad == 0) \
@@ -17,7 +17,7 @@ extern int32_t g_wa_val; /* ghost: the rounding of the watched mask coefficient 
     __CPROVER_loop_invariant((temp2 == temp && temp3 == accum) || (temp2 == accum && temp3 == temp)) \
     __CPROVER_loop_invariant(g_cur == temp3) \
     __CPROVER_loop_invariant(i <= g_i ==> g_calls_watched == 0) \
-    __CPROVER_loop_invariant(i > g_i ==> g_calls_watched == (bara[g_i] != 0)) \
+    __CPROVER_loop_invariant(i > g_i ==> (g_calls_watched >= 0 && g_calls_watched <= 1 && (bara[g_i] != 0 ==> g_calls_watched == 1))) \
     __CPROVER_decreases(n - i)
 #define LOOP_tfhe_blindRotate_FFT_0(i) BLIND_LOOP(i)
 #define LOOP_tfhe_blindRotate_0(i) BLIND_LOOP(i)
